@@ -1,6 +1,6 @@
 // API-level properties on the unified djinterop API (san variant: g++ ASan+UBSan, _GLIBCXX_ASSERTIONS, asserts on).
 #include "common/bigalloc.hpp"
-#include "api_crate.hpp"
+#include "api_persist.hpp"
 
 int main(int argc, char** argv)
 {
@@ -21,5 +21,9 @@ int main(int argc, char** argv)
     add("C07", api::prop_c07, 2, 16, 12);
     add("C08", api::prop_c08, 3, 28, 12);
     add("C09", api::prop_c09, 3, 28, 12);
+    add("C10", api::prop_c10, 3, 20, 260);
+    add("C11", api::prop_c11, 3, 16, 260);
+    add("C15", api::prop_c15, 3, 24, 260);
+    add("C16", api::prop_c16, 3, 16, 260);
     return vf::pbt_main(argc, argv, specs);
 }
